@@ -35,7 +35,7 @@ package tls
 //@ loop 1 invariant info != nil ==> info.count <= 4294967295
 //@ fresh result0
 //@ ensures [named-fields-always-get-info] result1 == nil && name != "" ==> result0 != nil
-//@ ensures [sizes-are-small] result1 == nil && result0 != nil ==> result0.count <= 4294967295
+//@ ensures [sizes-are-at-most-eight-octets] result1 == nil && result0 != nil ==> result0.count <= 8
 //@ ensures [unselected-fields-have-valid-size-and-bounds] result1 == nil && result0 != nil && result0.selector == "" && result0.countSet ==> 1 <= result0.count && result0.count <= 8 && result0.minlen <= result0.maxlen
 
 //@ func readVarUint
